@@ -278,3 +278,102 @@ Proof.
     assert (n >= 1) by lia. lia.
   - pose proof (length_hex_pairs_le n s C). lia.
 Qed.
+
+(* ------------------------------------------------------------------ converse: HexToBinary on valid hex that fits is the SPEC's decoding *)
+Lemma ishex_hexval : forall a, ishex a = true -> exists v, hexval a = Some v.
+Proof. intros a H. unfold ishex in H. destruct (hexval a) as [v|]; [exists v; reflexivity|discriminate H]. Qed.
+
+Lemma hexbyte_of_valid : forall a b, ishex a = true -> ishex b = true ->
+  hexbyte a b = Some (u8 (Z.lor (hexint a * 16) (hexint b))).
+Proof.
+  intros a b Ha Hb. destruct (ishex_hexval a Ha) as [va Ea]. destruct (ishex_hexval b Hb) as [vb Eb].
+  unfold hexbyte, hexint. rewrite Ea, Eb. f_equal. symmetry.
+  apply lor16; [exact (hexval_lt16 a va Ea)|exact (hexval_lt16 b vb Eb)].
+Qed.
+
+Lemma hexbyte_zero_of_valid : forall a, ishex a = true -> hexbyte ch_0 a = Some (u8 (hexint a)).
+Proof.
+  intros a Ha. destruct (ishex_hexval a Ha) as [va Ea].
+  assert (E : hexbyte ch_0 a = Some (n2b (16 * 0 + va)%N)).
+  { unfold hexbyte. change (hexval ch_0) with (Some 0%N). rewrite Ea. reflexivity. }
+  destruct (hexbyte_zero_digit a _ E) as [_ Hy]. rewrite E, Hy. reflexivity.
+Qed.
+
+Lemma unhex_of_valid_even : forall m s, length s = 2 * m -> is_valid_hex s = true -> unhex s = Some (hex_pairs s).
+Proof.
+  induction m as [|m IH]; intros s L V.
+  - destruct s; [reflexivity|cbn in L; lia].
+  - destruct s as [|a [|b s']]; cbn [length] in L; try lia.
+    unfold is_valid_hex in V. cbn [forallb] in V.
+    apply andb_prop in V. destruct V as [Ha V]. apply andb_prop in V. destruct V as [Hb V].
+    cbn [unhex hex_pairs]. rewrite (hexbyte_of_valid a b Ha Hb), (IH s' ltac:(lia) V). reflexivity.
+Qed.
+
+Lemma decode_id_of_model : forall n s, is_valid_hex s = true -> 1 <= length s -> length s <= 2 * n ->
+  decode_id n s = Some (hex_to_binary s n).
+Proof.
+  intros n s V L1 L2. unfold decode_id.
+  destruct (Nat.leb_spec 1 (length s)) as [_|C]; [|lia].
+  destruct (Nat.leb_spec (length s) (2 * n)) as [_|C]; [|lia]. cbn [andb].
+  unfold hex_to_binary. destruct (Nat.ltb_spec (2 * n) (length s)) as [C|_]; [lia|].
+  destruct (Nat.odd (length s)) eqn:O.
+  - apply Nat.odd_spec in O. destruct O as [m Hm].
+    destruct s as [|a s']; [cbn in L1; lia|]. cbn [length] in *.
+    assert (Ls : length s' = 2 * m) by lia.
+    unfold is_valid_hex in V. cbn [forallb] in V. apply andb_prop in V. destruct V as [Ha V].
+    pose proof (unhex_of_valid_even m s' Ls V) as U.
+    destruct (unhex_model _ s' U) as [_ [_ Lp]].
+    replace (2 * n - S (length s')) with (2 * (n - m - 1) + 1) by lia.
+    rewrite repeat_app. cbn [repeat]. rewrite <- app_assoc. cbn [app].
+    rewrite unhex_zeros_even. cbn [unhex]. rewrite (hexbyte_zero_of_valid a Ha), U. cbn [option_map length].
+    f_equal. f_equal. f_equal. lia.
+  - assert (Ev : Nat.even (length s) = true) by (rewrite <- Nat.negb_odd, O; reflexivity).
+    apply Nat.even_spec in Ev. destruct Ev as [m Hm].
+    pose proof (unhex_of_valid_even m s Hm V) as U.
+    destruct (unhex_model _ s U) as [_ [_ Lp]].
+    replace (2 * n - length s) with (2 * (n - m)) by lia.
+    rewrite unhex_zeros_even, U. cbn [option_map]. f_equal. f_equal. f_equal. lia.
+Qed.
+
+(* an id that HexToBinary leaves non-zero comes from 1 .. 2n hex digits and is their left-padded value *)
+Lemma installed_id_decodes : forall n s, is_valid_hex s = true -> all_zero (hex_to_binary s n) = false ->
+  decode_id n s = Some (hex_to_binary s n).
+Proof.
+  intros n s V NZ. apply decode_id_of_model; [exact V| |].
+  - destruct s as [|a s']; [|cbn [length]; lia]. exfalso.
+    unfold hex_to_binary in NZ. destruct (Nat.ltb_spec (2 * n) (length (@nil byte))) as [C|_]; [cbn in C; lia|].
+    cbn [length Nat.odd hex_pairs] in NZ. rewrite app_nil_r, all_zero_zeros in NZ. discriminate NZ.
+  - unfold hex_to_binary in NZ. destruct (Nat.ltb_spec (2 * n) (length s)) as [C|C]; [|exact C].
+    rewrite all_zero_zeros in NZ. discriminate NZ.
+Qed.
+
+Lemma decode_id_len : forall n s b, decode_id n s = Some b -> length s <= 2 * n.
+Proof.
+  intros n s b H. unfold decode_id in H.
+  destruct (Nat.leb 1 (length s)); [|discriminate H].
+  destruct (Nat.leb_spec (length s) (2 * n)) as [L|_]; [exact L|discriminate H].
+Qed.
+
+(* ------------------------------------------------------------------ SplitString versus positional cutting *)
+Lemma index_of_from_shift : forall c s k, index_of_from c s (S k) = option_map S (index_of_from c s k).
+Proof.
+  intros c s. induction s as [|b s IH]; intro k; cbn [index_of_from]; [reflexivity|].
+  destruct (Byte.eqb b c); [reflexivity|apply IH].
+Qed.
+
+Lemma cut_cons : forall c b s,
+  cut c (b :: s) = if Byte.eqb b c then Some ([], s)
+                   else match cut c s with Some (a, r) => Some (b :: a, r) | None => None end.
+Proof.
+  intros c b s. unfold cut, index_of. cbn [index_of_from].
+  destruct (Byte.eqb b c); [reflexivity|]. rewrite index_of_from_shift.
+  destruct (index_of_from c s 0); reflexivity.
+Qed.
+
+Lemma split_on_cut : forall c s,
+  split_on c s = match cut c s with Some (a, r) => a :: split_on c r | None => [s] end.
+Proof.
+  intros c s. induction s as [|b s IH]; [reflexivity|].
+  rewrite cut_cons. cbn [split_on]. destruct (Byte.eqb b c); [reflexivity|].
+  rewrite IH. destruct (cut c s) as [[a r]|]; reflexivity.
+Qed.
